@@ -1,0 +1,42 @@
+//go:build verif
+
+package tcp
+
+// Contracts for the TCP header parser and serialiser (properties C02, C14), checked by /verif/govc.
+//
+//@ func (*Header).Unmarshal
+//@   check safety
+//@   ensures [payload] result == nil ==> len(hdr.Payload) <= len(data) - 20
+//@   ensures [fields] len(data) >= 20 ==> hdr.Source == uint16(data[0])<<8 | uint16(data[1]) && hdr.Destination == uint16(data[2])<<8 | uint16(data[3]) && hdr.Ctrl == Flag(data[13] & 0x3f)
+//@   ensures [seq] len(data) >= 20 ==> hdr.SeqNum == uint32(data[4])<<24 | uint32(data[5])<<16 | uint32(data[6])<<8 | uint32(data[7])
+//@   ensures [ack] len(data) >= 20 ==> hdr.AckNum == uint32(data[8])<<24 | uint32(data[9])<<16 | uint32(data[10])<<8 | uint32(data[11])
+//@   modifies *hdr
+//
+//@ func (*Header).UnmarshalWithChecksum
+//@   check safety
+//@   requires is4(src) && is4(dest)
+//@   modifies *hdr
+//
+//@ func UnmarshalWithChecksum
+//@   check safety
+//@   requires is4(src) && is4(dest)
+//@   ensures result1 == nil || result1 == ErrInvalidChecksum ==> result0 != nil
+//@   modifies nothing
+//
+//@ func to4byte
+//@   check safety
+//@   requires dotted4(addr)
+//@   modifies nothing
+//
+//@ func csum
+//@   check safety
+//@   modifies nothing
+//@   loop 1: invariant i & 1 == 0
+//
+//@ func (*Header).HasFlag
+//@   check safety
+//@   ensures result == (hdr.Ctrl & flagBit == flagBit)
+//@   modifies nothing
+//
+//@ func init
+//@   ensures ErrInvalidChecksum != nil
